@@ -67,6 +67,9 @@ def canon(n):
     if k == "CXXDependentScopeMemberExpr": return "member(%s,%s)" % (canon(inner[0]) if inner else "this", n.get("member") or n.get("name") or "?")
     if k == "StringLiteral": return "str(%s)" % n.get("value")
     if k == "CXXOperatorCallExpr": return "opcall(" + ",".join(canon(c) for c in inner) + ")"
+    if k == "CXXTypeidExpr": return "typeid(%s)" % (n.get("typeArg", {}).get("qualType") or (canon(inner[0]) if inner else "?"))
+    if k == "UnresolvedLookupExpr": return n.get("name") or "?lookup"
+    if k == "CXXDefaultArgExpr": return "default"
     if k == "WhileStmt": return "while(" + ",".join(canon(c) for c in inner) + ")"
     if k == "CallExpr": return "fcall(" + ",".join(canon(c) for c in inner) + ")"
     return "?" + str(k)
